@@ -22,6 +22,12 @@ func runConnWrite(id string, toks []string) (res string) {
 			res = fmt.Sprint("panic ", r)
 		}
 	}()
+	switch toks[0] {
+	case "cwsw":
+		return runWriteAcrossSwitch(toks)
+	case "cwrace":
+		return runReadWriteRace(toks)
+	}
 	k := sharedKey(toks[1])
 	var pref []int
 	for _, s := range strings.Split(toks[2], ",") {
@@ -142,4 +148,162 @@ func splitPerm(s string, parts []string) []string {
 		}
 	}
 	return nil
+}
+
+// case: cwsw <old shared | -> <new shared> <payload A> <payload B>
+// Writer A is inside its socket write (holding the connection's write lock) and writer B is waiting for the lock when
+// the session switches to a new secure session (pair-verify on this connection completed and the next request arrived).
+// A was written before the switch (old keys, or plaintext when there was no session); B is written after it and the
+// peer, which decrypts in arrival order, expects it under the NEW keys from counter 0.
+func runWriteAcrossSwitch(toks []string) string {
+	sc, con, ctx := newScripted(nil)
+	sc.gate = make(chan *gatedWrite, 16)
+	s := ctx.GetSessionForConnection(sc)
+	var oldKey []byte
+	if toks[1] != "-" {
+		ko := sharedKey(toks[1])
+		so, err := newServerSession(ko)
+		if err != nil {
+			return "setup-error"
+		}
+		s.SetCryptographer(so)
+		s.Decrypter()
+		oldKey = refKey(ko[:], "Control-Read-Encryption-Key")
+	}
+	kn := sharedKey(toks[2])
+	sn, err := newServerSession(kn)
+	if err != nil {
+		return "setup-error"
+	}
+	newKey := refKey(kn[:], "Control-Read-Encryption-Key")
+	a, b := unhex(toks[3]), unhex(toks[4])
+	doneA, doneB := make(chan struct{}), make(chan struct{})
+	go func() { con.Write(a); close(doneA) }()
+	var ga *gatedWrite
+	select {
+	case ga = <-sc.gate:
+	case <-time.After(2 * time.Second):
+		return "stuck-a"
+	}
+	go func() { con.Write(b); close(doneB) }()
+	time.Sleep(120 * time.Millisecond) // B is now waiting for the write lock (or has captured what it needs before it)
+	s.SetCryptographer(sn)
+	s.Decrypter() // the reader promotes the new session when the controller's next request arrives
+	close(ga.release)
+	<-doneA
+	for {
+		select {
+		case g := <-sc.gate:
+			close(g.release)
+			continue
+		case <-doneB:
+		case <-time.After(2 * time.Second):
+			return "stuck-b"
+		}
+		break
+	}
+	sc.mu.Lock()
+	w := append([][]byte(nil), sc.written...)
+	sc.mu.Unlock()
+	if len(w) < 2 {
+		return fmt.Sprintf("writes=%d", len(w))
+	}
+	classify := func(wire, want []byte) string {
+		if string(wire) == string(want) {
+			return "plain"
+		}
+		if pt, ok := refOpenAll(newKey, 0, wire); ok && string(pt) == string(want) {
+			return "new"
+		}
+		if oldKey != nil {
+			for ctr := uint64(0); ctr < 8; ctr++ {
+				if pt, ok := refOpenAll(oldKey, ctr, wire); ok && string(pt) == string(want) {
+					return fmt.Sprintf("old@%d", ctr)
+				}
+			}
+		}
+		return "undecryptable"
+	}
+	var rest []byte
+	for _, x := range w[1:] {
+		rest = append(rest, x...)
+	}
+	return "a=" + classify(w[0], a) + " b=" + classify(rest, b)
+}
+
+// case: cwrace <shared> <writers> <writes per writer> <incoming frames>
+// Writers write while the connection's reader decrypts incoming frames on the same session. Every outgoing frame must
+// decrypt, in arrival order, under consecutive counters; every incoming frame must be delivered.
+func runReadWriteRace(toks []string) string {
+	k := sharedKey(toks[1])
+	nw, _ := strconv.Atoi(toks[2])
+	per, _ := strconv.Atoi(toks[3])
+	nin, _ := strconv.Atoi(toks[4])
+	ck := refKey(k[:], "Control-Write-Encryption-Key")
+	var evs []string
+	for i := 0; i < nin; i++ {
+		evs = append(evs, "D:"+hx(refSealFrames(ck, uint64(i), []byte(fmt.Sprintf("in-%06d", i)))))
+	}
+	sc, con, ctx := newScripted(evs)
+	sess, err := newServerSession(k)
+	if err != nil {
+		return "setup-error"
+	}
+	s := ctx.GetSessionForConnection(sc)
+	s.SetCryptographer(sess)
+	s.Decrypter()
+	var wg sync.WaitGroup
+	sizes := []int{90, 1024, 1500, 2600, 7}
+	total := 0
+	for wr := 0; wr < nw; wr++ {
+		wg.Add(1)
+		total += per
+		go func(wr int) {
+			defer wg.Done()
+			p := make([]byte, sizes[wr%len(sizes)])
+			for i := range p {
+				p[i] = byte(wr + 1)
+			}
+			for i := 0; i < per; i++ {
+				con.Write(p)
+			}
+		}(wr)
+	}
+	readOK := 0
+	rbad := ""
+	buf := make([]byte, 4096)
+	for i := 0; i < nin; i++ {
+		n, err := con.Read(buf)
+		if err != nil || string(buf[:n]) != fmt.Sprintf("in-%06d", i) {
+			rbad = fmt.Sprintf("read#%d", i)
+			break
+		}
+		readOK++
+	}
+	wg.Wait()
+	sc.mu.Lock()
+	var stream []byte
+	for _, w := range sc.written {
+		stream = append(stream, w...)
+	}
+	sc.mu.Unlock()
+	rk := refKey(k[:], "Control-Read-Encryption-Key")
+	// frame by frame, so that the first undecryptable frame is reported
+	ctr, pos, frames := uint64(0), 0, 0
+	for pos < len(stream) {
+		n := int(stream[pos]) | int(stream[pos+1])<<8
+		if pos+2+n+16 > len(stream) {
+			return fmt.Sprintf("truncated-at-frame %d", frames)
+		}
+		if _, ok := refOpenAll(rk, ctr, stream[pos:pos+2+n+16]); !ok {
+			return fmt.Sprintf("frame %d does not decrypt at counter %d (reads ok %d)", frames, ctr, readOK)
+		}
+		ctr++
+		frames++
+		pos += 2 + n + 16
+	}
+	if rbad != "" {
+		return "incoming " + rbad
+	}
+	return fmt.Sprintf("ok writes=%d", total)
 }
